@@ -426,6 +426,7 @@ class DirWatch:
         self.inspections = 0
         self.states = set()
         self.seen_temp = 0
+        self._tmp_prefix = str(getattr(obs, 'tmpdir', '') or '\0')
         from . import oshook
 
         oshook.register(self.os_event)
@@ -439,6 +440,27 @@ class DirWatch:
         """os.rename / os.remove about to happen on a destination name: a boundary like any other (the directory is inspected at
         this very instant, and a planned fault makes the call itself fail)."""
         obs = self.obs
+        if event == 'open':
+            # builtin open() of a temporary file of one of the watched destinations (the process-pool workers and the legacy
+            # downloader open it directly, below every OSUtils wrapper): a planned fault makes the open itself fail
+            p = args[0]
+            if not isinstance(p, str) or not p.startswith(self._tmp_prefix):
+                return
+            dn, bn = os.path.split(p)
+            for x in getattr(obs, 'xfers', ()):
+                if x.kind == 'download' and isinstance(x.dest, str) and x.fifo_reader is None and not x.spec.get('dst_is_dir'):
+                    base = os.path.basename(x.dest)
+                    if dn == os.path.dirname(x.dest) and bn != base and bn.startswith(base[:255 - 9]):
+                        d = obs.world.director
+                        key = d.occurrence(f'{x.label}/os:open')
+                        f = d.point(key, 'before')
+                        if f is not None:
+                            from .director import InjectedOSError
+
+                            d.note_raised(f, key, 'before')
+                            raise InjectedOSError(f['tag'])
+                        return
+            return
         paths = [p for p in args[:2] if isinstance(p, str)]
         for x in getattr(obs, 'xfers', ()):
             if x.kind == 'download' and isinstance(x.dest, str) and x.dest in paths and x.fifo_reader is None:
